@@ -95,7 +95,8 @@ def classes_for(focus):
     c01 = ["valid", "valid_multi", "missing_output", "spent_on_branch", "other_fork_output", "dup_ref_in_tx",
            "dup_ref_across_txs", "null_ref", "wrong_key_sig", "wrong_key_sig_first_of_two", "wrong_key_sig_last_of_two",
            "outputs_edited", "refs_edited", "placeholder_sig", "known_header_swapped_body",
-           "coinbasedata_sig", "bad_curve_point", "intra_block_spend", "dup_tx", "valid_many_inputs", "wrong_key_sig_many"]
+           "coinbasedata_sig", "bad_curve_point", "intra_block_spend", "dup_tx", "valid_many_inputs", "wrong_key_sig_many",
+           "wrong_key_sig_last_fee_covers", "missing_last_fee_covers"]
     c02 = ["valid", "valid_multi", "reward_plus1", "reward_exact_fees", "reward_minus1", "reward_prev_era", "fees_wrong_state",
            "reward_split_exact", "reward_split_plus1", "reward_split_big", "reward_wrap64",
            "reward_claims_sibling_fees", "zero_output", "max_output", "over_max_output", "u64_output", "total_over_max", "overspend_by_1",
@@ -220,6 +221,21 @@ def make_candidate(cr, klass, parent_hash, now_holder):
             override = {i: (keys.index_of(chosen[i][1].public_key.public_key) + 1) % len(keys.pks) for i in wrong}
         tx = chain.make_tx(keys, utxo, [r for r, _ in chosen], [(total - 1, 0)], signer_override=override)
         return cr.craft(parent_hash, others=[tx]), now
+    if klass in ("wrong_key_sig_last_fee_covers", "missing_last_fee_covers"):
+        # two inputs, the outputs no more than the FIRST input is worth (the fee is at least the second input): the second
+        # input is signed by a foreign key / does not exist
+        sp = [(r, o) for r, o in t.spendable(parent_hash) if o.value > 1]
+        if len(sp) < 2:
+            return None
+        rng.shuffle(sp)
+        (r1, o1), (r2, o2) = sp[0], sp[1]
+        if klass.startswith("wrong"):
+            owner = keys.index_of(o2.public_key.public_key)
+            bad = chain.make_tx(keys, utxo, [r1, r2], [(o1.value, 0)], signer_override={1: (owner + 1) % len(keys.pks)})
+        else:
+            ghost = OutputReference(b"\x77" * 32, 1)
+            bad = chain.make_tx(keys, {**dict(utxo.items()), ghost: Output(5, keys.pk(1))}, [r1, ghost], [(o1.value, 0)])
+        return cr.craft(parent_hash, others=[bad]), now
     if klass in ("wrong_key_sig_first_of_two", "wrong_key_sig_last_of_two"):
         sp = t.spendable(parent_hash)
         if len(sp) < 2:
